@@ -347,6 +347,15 @@ static void map_faults(vh_rng* r, int is_tree, int strkeys, int size) {
   FAULT(c, dump_map, FC_TYPE, "rem", "wrong-typed-key", rem(c, wrongkey));
   FAULT(c, dump_map, FC_TYPE, "mem", "wrong-typed-key", mem(c, wrongkey));
   FAULT(c, dump_map, FC_TYPE, "set", "wrong-typed-value", set(c, absent, $S("v")));
+  /* wrong types that the element type's own assignment would absorb if the container let them through: a type object
+     has a name (String's assign takes anything with c_str), a probe element has an integer value (Int's assign takes
+     anything with c_int) */
+  var absorbable_key = strkeys ? (var)Int : (var)PE_KEY(999, 0);
+  FAULT(c, dump_map, FC_TYPE, "set", "wrong-typed-key-its-type-could-absorb", set(c, absorbable_key, $I(1)));
+  FAULT(c, dump_map, FC_TYPE, "set", "wrong-typed-value-its-type-could-absorb", set(c, absent, PE_KEY(7, 0)));
+  FAULT(c, dump_map, FC_TYPE, "get", "wrong-typed-key-its-type-could-absorb", get(c, absorbable_key));
+  FAULT(c, dump_map, FC_TYPE, "rem", "wrong-typed-key-its-type-could-absorb", rem(c, absorbable_key));
+  if (size == 0) { vh_count("absorbable_wrong_types_offered_to_an_empty_map"); }
   if (size > 0) {
     var present_key = strkeys ? (var)$S("k000") : (var)$I(0);
     FAULT(c, dump_map, FC_TYPE, "set", "wrong-typed-value-for-bound-key", set(c, present_key, $F(1.5)));
